@@ -53,8 +53,20 @@ def gen_cases(chk):
                 elif k < 0.85:
                     if langs and rng.random() < 0.8:
                         tag = rng.choice(langs)[0]
-                        if rng.random() < 0.5:
+                        r3 = rng.random()
+                        if r3 < 0.4:
                             b = struct.pack('>I', tag).rstrip(b'\0'); tag = struct.unpack('>I', b + b' ' * (4 - len(b)))[0]   # space padded
+                        elif r3 < 0.65:
+                            # near misses of a known language: a '!' (0x21) or 0x1f before the padding, a space inside the tag, padding in
+                            # front -- none of them is that language (only TRAILING spaces are padding)
+                            b = bytearray(struct.pack('>I', tag).rstrip(b'\0'))
+                            k3 = rng.randrange(5)
+                            if k3 == 0: b = (b + b'! ')[:4] if len(b) < 4 else b[:3] + b'!'
+                            elif k3 == 1 and len(b) >= 2: b = b[:1] + b' ' + b[1:]
+                            elif k3 == 2: b = b' ' + b
+                            elif k3 == 3: b = b + bytes([0x1f, 0x20])
+                            else: b = b + b'!'
+                            b = bytes(b[:4]); tag = struct.unpack('>I', b + b'\0' * (4 - len(b)))[0]
                     else:
                         tag = rng.choice((0, 0x7a7a7a00, 0x20202020, rng.getrandbits(32)))
                     ops.append('lang:%08x' % tag)
